@@ -174,3 +174,59 @@ impl Writer for BoundedWriter {
         self.app(&value.to_be_bytes());
     }
 }
+
+
+/// A conforming `Writer` that keeps nothing but the number of octets appended (for values too
+/// large to store twice). Overwrites inside what was appended are accepted and forgotten.
+#[derive(Debug, Default)]
+pub struct NullWriter {
+    pub len: usize,
+    pub overwrites: Vec<(usize, Vec<u8>)>,
+    pub head: Vec<u8>,
+}
+
+impl NullWriter {
+    fn app(&mut self, b: &[u8]) {
+        if self.head.len() < 64 {
+            let k = (64 - self.head.len()).min(b.len());
+            self.head.extend_from_slice(&b[..k]);
+        }
+        self.len += b.len();
+    }
+}
+
+impl Writer for NullWriter {
+    fn is_empty(&self) -> bool {
+        self.len == 0
+    }
+    fn len(&self) -> usize {
+        self.len
+    }
+    fn write_bytes(&mut self, bytes: &[u8]) {
+        self.app(bytes);
+    }
+    fn write_bytes_at(&mut self, bytes: &[u8], offset: usize) {
+        if offset.checked_add(bytes.len()).map(|e| e > self.len).unwrap_or(true) {
+            panic!("NullWriter: overwrite [{}, +{}) outside the {} octets written", offset, bytes.len(), self.len);
+        }
+        if offset < self.head.len() {
+            let k = (self.head.len() - offset).min(bytes.len());
+            self.head[offset..offset + k].copy_from_slice(&bytes[..k]);
+        }
+        if self.overwrites.len() < 16 {
+            self.overwrites.push((offset, bytes.to_vec()));
+        }
+    }
+    fn write_u8(&mut self, value: u8) {
+        self.app(&[value]);
+    }
+    fn write_u16_be(&mut self, value: u16) {
+        self.app(&value.to_be_bytes());
+    }
+    fn write_u32_be(&mut self, value: u32) {
+        self.app(&value.to_be_bytes());
+    }
+    fn write_u64_be(&mut self, value: u64) {
+        self.app(&value.to_be_bytes());
+    }
+}
